@@ -262,10 +262,7 @@ func cmdCheck(args []string) int {
 			produced[o.ID] = r
 			solverS += r.Seconds
 			isFinding := strings.HasSuffix(o.ID, "@finding")
-			ok := r.Status == "unsat"
-			if o.Cover {
-				ok = r.Status == "sat"
-			}
+			ok := r.OK()
 			if isFinding {
 				if !ok {
 					// expected failure inside the recorded region
@@ -318,14 +315,14 @@ func cmdCheck(args []string) int {
 	if *writeClaims {
 		var ids []string
 		for id, r := range produced {
-			if r.Obl.Kind == "safe" || strings.HasSuffix(id, "@finding") {
+			if r.Obl.Kind == "safe" || r.Obl.Kind == "frame" || r.Obl.Kind == "cover" || strings.HasSuffix(id, "@finding") || strings.Contains(id, "#") {
 				continue
 			}
 			ids = append(ids, id)
 		}
 		sort.Strings(ids)
 		os.MkdirAll(filepath.Join(verifRoot, "obligations"), 0o755)
-		os.WriteFile(filepath.Join(verifRoot, "obligations", *prop+".claims"), []byte("# obligations that must be generated and discharged for "+*prop+" (safe: obligations are all required, whatever their number)\n"+strings.Join(ids, "\n")+"\n"), 0o644)
+		os.WriteFile(filepath.Join(verifRoot, "obligations", *prop+".claims"), []byte("# obligations that must be generated and discharged for "+*prop+" (safe:/frame:/cover: obligations and further instances #n of a listed clause are all required to discharge too, whatever their number)\n"+strings.Join(ids, "\n")+"\n"), 0o644)
 	}
 	// bounded stand-ins and thorough extras
 	var boundedOut []any
@@ -343,7 +340,7 @@ func cmdCheck(args []string) int {
 	if *verbose || len(viols) > 0 {
 		for _, ur := range units {
 			for _, r := range ur.Results {
-				ok := r.Status == "unsat" && !r.Obl.Cover || r.Status == "sat" && r.Obl.Cover
+				ok := r.OK()
 				if !ok && !strings.HasSuffix(r.Obl.ID, "@finding") {
 					fmt.Printf("FAILED %s : %s (%s, %s) %s:%d\n       %s\n", r.Obl.ID, r.Status, r.Solver, fmt.Sprintf("%.1fs", r.Seconds), r.Obl.Pos.Filename, r.Obl.Pos.Line, r.Obl.Desc)
 					if r.Model != "" {
